@@ -19,7 +19,10 @@ tests_rc=-1; demo_with=-1; demo_clean=-1; detect_rc=-1
 if [ $applies -eq 0 ]; then
   ( cd "$W/with" && timeout 1500 /venv/bin/python -m pytest -q -x -p no:cacheprovider --timeout=900 > "$W/tests.log" 2>&1 ); tests_rc=$?
   mkdir -p "$W/with/_seeded/$ID" "$W/clean/_seeded/$ID"
-  cp "$SRC/demo.py" "$W/with/_seeded/$ID/"; cp "$SRC/demo.py" "$W/clean/_seeded/$ID/"
+  # demos may hard-code the author's worktree path: make them relocatable
+  sed "s#/tmp/wt/$PROP#__CHECKOUT__#g" "$SRC/demo.py" > "$OUT/demo.py"
+  sed "s#__CHECKOUT__#$W/with#g" "$OUT/demo.py" > "$W/with/_seeded/$ID/demo.py"
+  sed "s#__CHECKOUT__#$W/clean#g" "$OUT/demo.py" > "$W/clean/_seeded/$ID/demo.py"
   ( cd "$W/with" && PYTHONPATH="$W/with" timeout 600 /venv/bin/python "_seeded/$ID/demo.py" > "$W/demo_with.log" 2>&1 ); demo_with=$?
   ( cd "$W/clean" && PYTHONPATH="$W/clean" timeout 600 /venv/bin/python "_seeded/$ID/demo.py" > "$W/demo_clean.log" 2>&1 ); demo_clean=$?
   if [ "${DETECT:-0}" = "1" ]; then
